@@ -56,3 +56,11 @@ func prettySexp(s string) string {
 	}
 	return sb.String()
 }
+
+func unhex(h string) string {
+	b, err := hex.DecodeString(h)
+	if err != nil {
+		return ""
+	}
+	return string(b)
+}
